@@ -319,7 +319,9 @@ class HSM2Protocol:
         # - Contain exactly a "hash" element of type string (1) that must be a 32-byte hex
         #   (what is "any" or "hash")
         # - Contain exactly a "tx" element of type string that must be a hex string;
-        #   an "input" element of type int; a "sighashComputationMode" element
+        #   an "input" element of type int between 0 and 0xffffffff (it is sent
+        #   to the device as a 4-byte unsigned integer);
+        #   a "sighashComputationMode" element
         #   of type string that contains exactly either "legacy" (2a) or "segwit" (2b);
         #   and, if the latter contains "segwit", then additionally:
         #     o A "witnessScript" element of type string that must be a hex string
@@ -348,6 +350,8 @@ class HSM2Protocol:
             and len(message) == 3
             and has_nonempty_hex_field(message, "tx")
             and has_field_of_type(message, "input", int)
+            and message["input"] >= 0
+            and message["input"] <= 0xffffffff
             and has_field_of_type(message, "sighashComputationMode", str)
             and message["sighashComputationMode"] == "legacy"
         ):
@@ -359,6 +363,8 @@ class HSM2Protocol:
             and len(message) == 5
             and has_nonempty_hex_field(message, "tx")
             and has_field_of_type(message, "input", int)
+            and message["input"] >= 0
+            and message["input"] <= 0xffffffff
             and has_field_of_type(message, "sighashComputationMode", str)
             and message["sighashComputationMode"] == "segwit"
             and has_nonempty_hex_field(message, "witnessScript")
